@@ -67,9 +67,11 @@ def kindOf? : Term → Option WKind
 def armedT : Option Nat → Term
   | none => sym "far"
   | some n => nat n
-def armedOf? : Term → Option (Option Nat)
-  | .atom "far" => some none
-  | t => (asNat? t).map some
+/-- deadline, and whether the collection was empty -/
+def armedOf? : Term → Option (Option Nat × Bool)
+  | .atom "far" => some (none, false)
+  | .atom "empty" => some (none, true)
+  | t => (asNat? t).map fun n => (some n, false)
 
 def setT (b : Bool) : Term := sym (if b then "set" else "kept")
 def setOf? : Term → Option Bool
@@ -82,22 +84,31 @@ def tmOf? (name : String) : Term → Option (Option Tm)
   | .list [.atom "tm", .atom n, .atom "none"] => if n == name then some none else none
   | .list [.atom "tm", .atom n, .list [.atom "hold", hs, h], .list [.atom "ka", ks, k]] => do
       if n != name then none
-      pure (some { holdSet := (← setOf? hs), hold := (← armedOf? h), kaSet := (← setOf? ks), ka := (← armedOf? k) })
+      let (hd, he) ← armedOf? h
+      let (kd, ke) ← armedOf? k
+      pure (some { holdSet := (← setOf? hs), hold := hd, kaSet := (← setOf? ks), ka := kd, emptySlot := he || ke })
   | _ => none
 
 def wstepT (timers : Bool) (s : WStep) : Term :=
   list ([kindT s.kind, tag "to-a" [list (s.toA.map frameT)], tag "to-p" [list (s.toP.map frameT)],
          stateT s.stA, stateT s.stP] ++ (if timers then [tmT "A" s.tmA, tmT "P" s.tmP] else []))
 
+def anomalyOf? : Term → Option String
+  | .atom "storm" => some "driver-does-not-come-to-rest"
+  | .list [.atom "close-channel-mismatch", _] => some "close-channel-and-connection-disagree"
+  | _ => none
+
 def wstepOf? (timers : Bool) : Term → Option WStep
-  | .list [k, .list [.atom "to-a", .list fa], .list [.atom "to-p", .list fp], a, p] =>
-      if timers then none else do
-      pure { kind := (← kindOf? k), toA := (← fa.mapM frameOf?), toP := (← fp.mapM frameOf?),
-             stA := (← stateOf? a), stP := (← stateOf? p), tmA := none, tmP := none }
-  | .list [k, .list [.atom "to-a", .list fa], .list [.atom "to-p", .list fp], a, p, ta, tp] =>
-      if !timers then none else do
-      pure { kind := (← kindOf? k), toA := (← fa.mapM frameOf?), toP := (← fp.mapM frameOf?),
-             stA := (← stateOf? a), stP := (← stateOf? p), tmA := (← tmOf? "A" ta), tmP := (← tmOf? "P" tp) }
+  | .list (k :: .list [.atom "to-a", .list fa] :: .list [.atom "to-p", .list fp] :: a :: p :: rest) => do
+      let base : WStep :=
+        { kind := (← kindOf? k), toA := (← fa.mapM frameOf?), toP := (← fp.mapM frameOf?),
+          stA := (← stateOf? a), stP := (← stateOf? p), tmA := none, tmP := none }
+      if timers then
+        match rest with
+        | ta :: tp :: more =>
+            pure { base with tmA := (← tmOf? "A" ta), tmP := (← tmOf? "P" tp), anomalies := (← more.mapM anomalyOf?) }
+        | _ => none
+      else pure { base with anomalies := (← rest.mapM anomalyOf?) }
   | _ => none
 
 def wireObsT (timers : Bool) (tr : List WStep) : Term := tag "wire-obs" (tr.map (wstepT timers))
